@@ -30,6 +30,9 @@ inline std::vector<const DomInfo *> select_domains(const std::string &sel) {
   if (sel == "any" || sel == "all") {
     for (auto &d : roster())
       if (!d.machine) out.push_back(&d); // machine-integer domains have their own engine
+  } else if (sel == "inter") {
+    for (auto n : {"int", "sdbm", "soct", "term_int", "bool_int", "dbm", "term_dbm", "ric", "disint", "num"})
+      if (find_domain(n)) out.push_back(find_domain(n));
   } else if (sel == "backward") {
     for (auto &d : roster())
       if (d.backward) out.push_back(&d);
@@ -255,5 +258,9 @@ void run_fwd_case(Ctx &ctx, int64_t kase, Rng &r, const DomInfo &d);
 void run_pool_case(Ctx &ctx, int64_t kase, Rng &r, const DomInfo &d);
 void run_chain_case(Ctx &ctx, int64_t kase, Rng &r, const DomInfo &d);
 void run_bwd_case(Ctx &ctx, int64_t kase, Rng &r, const DomInfo &d);
+void run_td_case(Ctx &ctx, int64_t kase, Rng &r, const DomInfo &d);
+void run_bu_case(Ctx &ctx, int64_t kase, Rng &r, const DomInfo &d);
+void run_exact_case(Ctx &ctx, int64_t kase, Rng &r, const DomInfo &d);
+void run_lift_case(Ctx &ctx, int64_t kase, Rng &r, const DomInfo &d);
 
 } // namespace vf
